@@ -139,6 +139,14 @@ func runC02(w *World) *Result {
 		FrameRule(w, b, r, "R-C02-frame")
 		PopRule(w, role, r, "R-C02-pop", "FuncStart")
 	}
+	r.Rule("R-C02-wiring", "names, values and global flags of definitions, assignments, calls and evaluations reach the Converter parameter they belong to", 15)
+	WiringRule(w, r, "R-C02-wiring", func(m string) bool {
+		switch m {
+		case "VarDefinition", "VarAssignment", "VarEvaluation", "FuncStart", "FuncCall", "Return":
+			return true
+		}
+		return false
+	})
 	r.Rule("R-C02-driver", "calls and returns: every argument / returned value is evaluated once, as a used value, in order, before the converter call", 5)
 	ProtoRule(w, r, "R-C02-driver", func(n string) bool {
 		switch n {
